@@ -317,7 +317,7 @@ def matrices(rep, ex, nat, B):
 
 def run(tier):
     rep = Report("C18", tier, "model_checking")
-    B = 3 if tier == "quick" else 5
+    B = int(os.environ.get("VERIF_C18_B", 0)) or (5 if tier == "quick" else 10)
     rep.assumptions = ["MEX API modelled by contract-level stubs: mxCreate* return zero-filled arrays of the requested class and shape; mxGet* read the record; mxGetScalar converts element 0 by class; mexErrMsg* do not return",
                        "gtsam::Vector/Matrix/Point2/Point3 stand-ins: {pointer,size} structs with column-major operator()",
                        "clang-14 -O1 IR of the header is what is executed; little-endian LP64",
@@ -335,10 +335,12 @@ def run(tier):
         if not nat.ok:
             rep.harness_error("native replay driver does not compile: " + nat.err)
             return rep.finish()
-        scalar_roundtrips(rep, ex, nat)
-        scalar_guards(rep, ex, nat, open_f)
-        vectors(rep, ex, nat, B)
-        matrices(rep, ex, nat, B)
+        # each group on its own: an IR construct outside the subset in one kernel must not hide a violation in another
+        for group, args in ((scalar_roundtrips, (rep, ex, nat)), (scalar_guards, (rep, ex, nat, open_f)), (vectors, (rep, ex, nat, B)), (matrices, (rep, ex, nat, B))):
+            try:
+                group(*args)
+            except llir.Unsupported as ex_:
+                rep.harness_error("IR construct outside the interpreter's subset in %s: %s" % (group.__name__, ex_))
         rep.functions.update(sorted(ex.funcs_run))
         rep.paths += ex.npaths
         rep.queries += ex.nqueries
